@@ -35,7 +35,13 @@ def specAct (e : Ev) : TAct :=
   else if e.node.kind == "lvar_decl" then .decl e.node.ident e.node.sel
   else .other
 
-def acts (m : Method) : List TAct := m.body.map specAct
+/-- a visit belongs to the method proper: it lies in the same top-level declaration as the method
+    node (top-level declarations that follow the method are walked before the next method node but
+    are not part of it) -/
+def own (m : Method) (e : Ev) : Bool := e.item == m.head.item
+
+/-- the property's reading of the visits that follow the method node up to the next method -/
+def acts (m : Method) : List TAct := m.body.map (fun e => if own m e then specAct e else .other)
 
 /-- the local variables of a method: declared name and the range of that name -/
 def locals (m : Method) : List (String × Range) := decls (acts m)
@@ -63,7 +69,8 @@ def WellDeclared (norm : String → String) (m : Method) : Bool := wellDeclared 
     only) coincides with the property's (`memberPos`) — or both readings concern no local of
     the method (a mention of a name the method does not declare) -/
 def Agrees (norm : String → String) (m : Method) : Bool :=
-  m.body.all (fun e => agreeUpTo norm ((locals m).map (fun d => norm d.1)) (uvAct Cfg.fixed e) (specAct e))
+  m.body.all (fun e => agreeUpTo norm ((locals m).map (fun d => norm d.1)) (uvAct Cfg.fixed e)
+    (if own m e then specAct e else .other))
 
 /-- the unused-variable items of a file that consists of these methods -/
 def unusedAll (norm : String → String) (ms : List Method) : List LDiag :=
